@@ -5,6 +5,7 @@ document semantics (Model/C17Doc.lean, spec) and about mxlpy's own stage: argume
 functions, initial assignments, names of generated functions, name of the generated module.
 -/
 import MxlVerif.Lemmas.C17
+import MxlVerif.Lemmas.C17Codegen
 namespace Mxl.C17
 open Mxl.C08
 
@@ -96,5 +97,120 @@ theorem C17_two_docs_independent (s1 s2 d1 d2 : String) (hlen : d1.length = d2.l
   simp only [String.toList_append] at h'
   have hl : d1.toList.length = d2.toList.length := by rw [String.length_toList, String.length_toList, hlen]
   exact String.ext (List.append_inj_right' h' hl)
+
+/-! ### the naming / glue stage of `generate_mxlpy_code_from_symbolic_repr` and `_codegen` (Model/C17Codegen.lean) -/
+
+/-- `_free_name` terminates: `len(taken) + 1` rounds always suffice (every round meets another element of
+    `taken`), and the name it returns is not taken. -/
+theorem C17_free_name_terminates (taken : List String) (name : String) :
+    freeName taken name (taken.length + 1) = some (freshName taken name) ∧ freshName taken name ∉ taken :=
+  ⟨freshName_spec taken name, freshName_not_taken taken name⟩
+
+/-- **Every reference resolves to the definition its component registered.**  Whenever the function names of
+    the derived quantities and reactions are pairwise distinct (on the import path they are the keys of the
+    document's rules and reactions), executing the emitted module — looking every `fn=<name>` up among the
+    module's definitions — builds exactly the calls the representation prescribes: same order, same keys, same
+    keyword, and for every initial assignment / derived quantity / reaction / computed stoichiometry the
+    (expression, parameter list) of *that* component, called with the same list. -/
+theorem C17_codegen_refs_resolve (s : SymRepr) (hnd : (takenOf s).Nodup) (m : Module) (h : genModule s = .ok m) :
+    resolveModule m = specCalls s := by
+  simp only [genModule, genModuleWith] at h
+  split at h
+  · cases h
+  · simp only [Except.ok.injEq] at h
+    subst h
+    exact (genState_spec s hnd).2.2
+
+/-- **No overwrite happens**: the emitted function names are pairwise distinct, and there is one definition per
+    function the representation asks for (initial assignments, derived quantities, reactions, computed
+    stoichiometries); every definition has pairwise distinct parameters (else the generator raises). -/
+theorem C17_codegen_function_names_distinct (s : SymRepr) (hnd : (takenOf s).Nodup) (m : Module)
+    (h : genModule s = .ok m) :
+    (m.functions.map (·.1)).Nodup ∧ m.functions.length = fnsAsked s ∧ ∀ kv ∈ m.functions, hasDup kv.2.2 = false := by
+  simp only [genModule, genModuleWith] at h
+  split at h
+  · cases h
+  · rename_i hdup
+    simp only [Except.ok.injEq] at h
+    subst h
+    refine ⟨(genState_spec s hnd).1, (genState_spec s hnd).2.1, ?_⟩
+    intro kv hkv
+    simp only [List.any_eq_true, not_exists, not_and, Bool.not_eq_true] at hdup
+    exact hdup kv hkv
+
+/-- the witness of F-C17-9: before the repair (names handed out were not added to `taken`) parameters `a` and
+    `a_` with initial assignments next to a derived quantity called `init_a` both got `init_a_`; `a` was then
+    initialised with the formula of `a_`.  With the repair the same input resolves as prescribed. -/
+def wCollide : SymRepr :=
+  { variables := []
+    parameters := [("a", { value := .fn { fnName := "a", expr := 1, args := ["q"] }, unit := false }),
+                   ("a_", { value := .fn { fnName := "a_", expr := 2, args := ["q"] }, unit := false })]
+    derived := [("init_a", { fnName := "init_a", expr := 3, args := ["q"] })]
+    reactions := [] }
+
+theorem C17_generated_names_collided_before_repair :
+    (genModuleWith false wCollide).toOption.map resolveModule ≠ some (specCalls wCollide) ∧
+    (genModuleWith false wCollide).toOption.map (·.functions.map (·.1)) = some ["init_a_", "init_a"] ∧
+    (genModule wCollide).toOption.map (·.functions.map (·.1)) = some ["init_a_", "init_a__", "init_a"] := by
+  decide +kernel
+
+/-- non-vacuity: the witness has pairwise distinct component function names and is accepted -/
+example : (takenOf wCollide).Nodup ∧ (genModule wCollide).toBool = true := by decide +kernel
+
+/-- `_codegen`: the function of a derived quantity / reaction is called like its key, so the hypothesis of the two
+    theorems above is "the keys of pysbml's `derived` and `reactions` are pairwise distinct". -/
+theorem C17_import_refs_resolve (pm : PModel) (hnd : (pm.derived.map (·.1) ++ pm.reactions.map (·.1)).Nodup)
+    (m : Module) (h : genModule (importSym pm) = .ok m) :
+    resolveModule m = specCalls (importSym pm) ∧ (m.functions.map (·.1)).Nodup :=
+  have hnd' : (takenOf (importSym pm)).Nodup := by rw [takenOf_importSym]; exact hnd
+  ⟨C17_codegen_refs_resolve _ hnd' m h, (C17_codegen_function_names_distinct _ hnd' m h).1⟩
+
+/-- `_codegen`: an initial assignment on a parameter replaces that parameter's value by the assignment's
+    function (named after the key, parameters = its free symbols); on a variable that is no parameter likewise;
+    keys, order and units are untouched. -/
+theorem C17_import_ia_overrides_value (pm : PModel) (key : String) (e : PExpr) (hnd : (pm.inits.map (·.1)).Nodup)
+    (hmem : (key, e) ∈ pm.inits) :
+    (hasKey pm.parameters key = true →
+      (importSym pm).parameters.lookup key =
+        (pm.parameters.lookup key).map fun vu => { value := .fn { fnName := key, expr := e.expr, args := e.free }, unit := vu.2 }) ∧
+    (hasKey pm.parameters key = false → hasKey pm.variables key = true →
+      (importSym pm).variables.lookup key =
+        (pm.variables.lookup key).map fun vu => { value := .fn { fnName := key, expr := e.expr, args := e.free }, unit := vu.2 }) ∧
+    (importSym pm).parameters.map (·.1) = pm.parameters.map (·.1) ∧
+    (importSym pm).variables.map (·.1) = pm.variables.map (·.1) := by
+  have lk : ∀ (l : List (String × ExprId × Bool)),
+      (l.map fun kv => (kv.1, ({ value := .num kv.2.1, unit := kv.2.2 } : SymQty))).lookup key =
+        (l.lookup key).map fun vu => ({ value := .num vu.1, unit := vu.2 } : SymQty) := by
+    intro l
+    induction l with
+    | nil => rfl
+    | cons kv rest ih =>
+      simp only [List.map_cons, List.lookup]
+      split <;> simp_all
+  refine ⟨?_, ?_, ?_, ?_⟩
+  · intro hp
+    unfold importSym
+    rw [applyInits_parameter pm key e hp pm.inits _ hnd hmem]
+    simp only [lk]
+    cases pm.parameters.lookup key <;> rfl
+  · intro hp hv
+    unfold importSym
+    rw [applyInits_variable pm key e hp hv pm.inits _ hnd hmem]
+    simp only [lk]
+    cases pm.variables.lookup key <;> rfl
+  · unfold importSym
+    rw [(applyInits_keys pm pm.inits _).1]
+    simp [List.map_map]
+  · unfold importSym
+    rw [(applyInits_keys pm pm.inits _).2.1]
+    simp [List.map_map]
+
+/-- `_codegen`: an initial assignment whose key is neither a parameter nor a variable of the pysbml model is
+    dropped without a message (reachable: pysbml keeps the assignment of a species in a non-constant compartment
+    under the species' id, which it turns into a derived quantity, next to the one it adds for `<id>_amount`). -/
+theorem C17_import_ia_elsewhere_dropped (pm : PModel) (key : String) (e : PExpr) (rest : List (String × PExpr))
+    (s : SymRepr) (hp : hasKey pm.parameters key = false) (hv : hasKey pm.variables key = false) :
+    applyInits pm ((key, e) :: rest) s = applyInits pm rest s := by
+  simp [applyInits, hp, hv]
 
 end Mxl.C17
